@@ -24,6 +24,7 @@ import (
 //	                                    every examined truncation is refused: "ok hash=<h>"
 //	conc <g> <rounds> tx:<B>|blk:<B> ... <keys>   the items decoded from g goroutines at once: every identity = dsha256(unsigned bytes): "ok"
 //	holdarr tx:<B>|hdr:<B>|blk:<B>|attr:<B> ... <keys>   ToArray()/GetMessage() results kept while more are produced, then re-checked: "ok"
+//	txmut <B> <add|replace|m> <sig> <keys>   a change inside an existing Sig entry of the decoded tx survives re-encoding: "ok"
 //	txbig <codelen> <fill> <nonce>      transaction with a code of codelen bytes: "len=<n> ok hash=<h>|err" (MAX_TX_SIZE)
 //	hdr <B> <keys>                      Header.Deserialization (+ the streaming Deserialize must agree): "ok <V> hash=<h> rest=<n>"
 //	hdrprop <B> <alttail> <keys>        property of a valid header encoding (hash ignores bookkeepers / sigData)
@@ -575,6 +576,59 @@ func (f *ledgerFam) holdArr(r *hx.Run, op []string) string {
 	return res
 }
 
+// txMut: txmut <B> <add|replace|m|dropkeysig> <sig> <keys>. B decodes to a transaction with at least one Sig entry; the FIRST
+// entry is changed in place (a signature appended / the first one replaced / M changed) keeping the number of entries, the
+// transaction is re-encoded (Serialization and ToArray) and decoded again: the result must be the mutated transaction, and
+// the bytes must be those of a fresh Transaction object carrying the same fields. Outcome "ok".
+func (f *ledgerFam) txMut(r *hx.Run, op []string) string {
+	if len(op) != 5 {
+		return "bad-op"
+	}
+	raw, extra := hx.UnHex(op[1]), hx.UnHex(op[3])
+	res, pm := guarded(func() string {
+		tx, err := decodeTx(raw)
+		if err != nil || len(tx.Sigs) == 0 {
+			return "bad-op"
+		}
+		sg := &tx.Sigs[0]
+		switch op[2] {
+		case "add":
+			sg.SigData = append(sg.SigData, extra)
+		case "replace":
+			if len(sg.SigData) == 0 {
+				sg.SigData = append(sg.SigData, extra)
+			} else {
+				sg.SigData[0] = extra
+			}
+		case "m":
+			sg.M++
+		default:
+			return "bad-op"
+		}
+		want := renderTx(tx)
+		fresh := &types.Transaction{Version: tx.Version, TxType: tx.TxType, Nonce: tx.Nonce, ChainID: tx.ChainID, GasLimit: tx.GasLimit, GasPrice: tx.GasPrice,
+			Payload: tx.Payload, Attributes: tx.Attributes, Payer: tx.Payer, CoinType: tx.CoinType, Sigs: tx.Sigs}
+		expect := serTx(fresh)
+		for name, re := range map[string][]byte{"Serialization": serTx(tx), "ToArray": tx.ToArray()} {
+			if !bytes.Equal(re, expect) {
+				r.Viol("C02:mutation-lost-on-reencode", fmt.Sprintf("after `%s` inside the first Sig entry of the decoded transaction, %s writes %s; a fresh Transaction with the same fields writes %s",
+					op[2], name, trunc(hx.Hex(re), 160), trunc(hx.Hex(expect), 160)))
+				return "FAIL:reencode"
+			}
+			back, err := decodeTx(re)
+			if err != nil || renderTx(back) != want {
+				r.Viol("C02:mutation-lost-on-reencode", fmt.Sprintf("after `%s` inside the first Sig entry, re-encoding (%s) and decoding gives %s, expected %s (%v)", op[2], name, trunc(renderTx(back), 200), trunc(want, 200), err))
+				return "FAIL:roundtrip"
+			}
+		}
+		return "ok"
+	})
+	if res == "panic" {
+		r.Viol("C02:decoder-panic:Transaction:"+panicSite(pm), "txmut panics: "+pm)
+	}
+	return res
+}
+
 func bigTx(n int, fill byte, nonce uint32) []byte {
 	tx := &types.Transaction{TxType: types.Invoke, Nonce: nonce, Payload: &payload.InvokeCode{Code: bytes.Repeat([]byte{fill}, n)}}
 	sink := common.NewZeroCopySink(nil)
@@ -602,6 +656,8 @@ func (f *ledgerFam) Exec(r *hx.Run, op []string) string {
 		return f.concOp(r, op)
 	case "holdarr":
 		return f.holdArr(r, op)
+	case "txmut":
+		return f.txMut(r, op)
 	case "txbig":
 		n, _ := strconv.Atoi(op[1])
 		nonce, _ := strconv.Atoi(op[3])
@@ -683,6 +739,72 @@ func serTx(tx *types.Transaction) []byte {
 		panic(err)
 	}
 	return append([]byte{}, sink.Bytes()...)
+}
+
+// vuForm writes v as a var-uint in a randomly chosen, possibly non-minimal, form that can hold it (NextVarUint accepts all).
+func vuForm(r *hx.Run, sink *common.ZeroCopySink, v uint64) {
+	forms := []int{0, 3}
+	if v <= 0xffff {
+		forms = append(forms, 1)
+	}
+	if v <= 0xffffffff {
+		forms = append(forms, 2)
+	}
+	sink.WriteBytes(varuintBytes(v, forms[r.Rng.Intn(len(forms))]))
+}
+
+func vbForm(r *hx.Run, sink *common.ZeroCopySink, b []byte) {
+	vuForm(r, sink, uint64(len(b)))
+	sink.WriteBytes(b)
+}
+
+// serTxForms: the wire format of Transaction.Serialization with every length prefix / count in a random var-uint form.
+func serTxForms(r *hx.Run, tx *types.Transaction) []byte {
+	s := common.NewZeroCopySink(nil)
+	s.WriteByte(tx.Version)
+	s.WriteByte(byte(tx.TxType))
+	s.WriteUint32(tx.Nonce)
+	s.WriteUint64(tx.ChainID)
+	s.WriteUint64(tx.GasLimit)
+	s.WriteUint64(tx.GasPrice)
+	vbForm(r, s, tx.Payload.(*payload.InvokeCode).Code)
+	vbForm(r, s, tx.Attributes)
+	s.WriteAddress(tx.Payer)
+	s.WriteByte(byte(tx.CoinType))
+	vuForm(r, s, uint64(len(tx.Sigs)))
+	for _, sg := range tx.Sigs {
+		s.WriteUint16(uint16(len(sg.SigData)))
+		for _, d := range sg.SigData {
+			vbForm(r, s, d)
+		}
+		s.WriteUint16(uint16(len(sg.PubKeys)))
+		for _, k := range sg.PubKeys {
+			vbForm(r, s, keypair.SerializePublicKey(k))
+		}
+		s.WriteUint16(sg.M)
+	}
+	return append([]byte{}, s.Bytes()...)
+}
+
+// serHeaderForms: Header.Serialization with every length prefix / count in a random var-uint form.
+func serHeaderForms(r *hx.Run, h *types.Header) []byte {
+	s := common.NewZeroCopySink(nil)
+	msg := h.GetMessage() // unsigned part; its ConsensusPayload prefix is re-written below
+	tail := 20            // NextBookkeeper
+	cp := h.ConsensusPayload
+	canonPrefix := len(varuintBytes(uint64(len(cp)), 0))
+	s.WriteBytes(msg[:len(msg)-tail-len(cp)-canonPrefix])
+	vbForm(r, s, cp)
+	s.WriteBytes(msg[len(msg)-tail:])
+	vuForm(r, s, uint64(len(h.Bookkeepers)))
+	for _, k := range h.Bookkeepers {
+		vbForm(r, s, keypair.SerializePublicKey(k))
+	}
+	vuForm(r, s, uint64(len(h.SigData)))
+	for _, d := range h.SigData {
+		vbForm(r, s, d)
+	}
+	return append([]byte{}, s.Bytes()...)
 }
 
 func serSigs(sigs []types.Sig) []byte {
@@ -949,6 +1071,35 @@ func (f *ledgerFam) Gen(r *hx.Run) {
 		}
 		r.Do(fmt.Sprintf("conc %d %d %s %s", []int{4, 6, 8}[r.Rng.Intn(3)], r.Pick(25, 60), strings.Join(toks, " "), keyOracle(all...)))
 		r.Nontrivial(fmt.Sprintf("conc/%d", i))
+	}
+	// non-minimal var-uint forms at every length prefix / count of valid transactions and headers: the identity stays the
+	// double SHA-256 of the exact unsigned bytes on the wire
+	for i := 0; i < r.Pick(150, 5000); i++ {
+		newCase("tx-forms")
+		tx := f.genTx(r, 3)
+		raw := serTxForms(r, tx)
+		out := r.Do(fmt.Sprintf("tx %s %s", hx.Hex(raw), keyOracle(raw)))
+		r.Nontrivial(fmt.Sprintf("tx-forms/%s/%d", outClass(out), len(tx.Sigs)))
+		if !strings.HasPrefix(out, "ok") {
+			r.Viol("C02:noncanonical-length-prefix-rejected:Transaction", "a transaction whose length prefixes use longer var-uint forms is rejected: "+trunc(hx.Hex(raw), 300))
+		}
+		if i%2 == 0 {
+			h := f.genHeader(r)
+			hraw := serHeaderForms(r, h)
+			r.Do(fmt.Sprintf("hdr %s %s", hx.Hex(hraw), keyOracle(hraw)))
+		}
+	}
+	// a signature added / replaced / M changed INSIDE an existing Sig entry of a decoded transaction survives re-encoding
+	for i := 0; i < r.Pick(60, 2000); i++ {
+		newCase("txmut")
+		tx := f.genTx(r, 3)
+		if len(tx.Sigs) == 0 {
+			tx.Sigs = append(tx.Sigs, f.genSig(r))
+		}
+		raw := serTx(tx)
+		mode := []string{"add", "replace", "m"}[r.Rng.Intn(3)]
+		r.Do(fmt.Sprintf("txmut %s %s %s %s", hx.Hex(raw), mode, hx.Hex(r.Rng.Bytes(1+r.Rng.Intn(70))), keyOracle(raw)))
+		r.Nontrivial("txmut/" + mode)
 	}
 	// encoders hand out byte slices: results held while more are produced (also from two goroutines), then re-checked
 	for i := 0; i < r.Pick(6, 100); i++ {
